@@ -250,7 +250,17 @@ func (l *RangeLoop) inLoop(b *ssa.BasicBlock) bool {
 // early, or the header's exit edge is among the (threaded) guards at b.
 func (p *Program) completedAt(l *RangeLoop, b *ssa.BasicBlock) bool {
 	if len(l.earlyExits()) == 0 && (l.Exit == b || l.Exit.Dominates(b)) {
-		return true
+		// the exit block must be entered from the loop only (a loop inside one arm of a switch
+		// shares its exit block with the other arms)
+		only := true
+		for _, pr := range l.Exit.Preds {
+			if pr != l.Header && !l.blocks()[pr] {
+				only = false
+			}
+		}
+		if only {
+			return true
+		}
 	}
 	ifi, ok := l.Header.Instrs[len(l.Header.Instrs)-1].(*ssa.If)
 	if !ok || l.Header.Succs[1] != l.Exit {
